@@ -9,7 +9,7 @@ sched.cov_register(__name__.split('.')[-1])      # dev-only: VERIF_COVERAGE=1
 ID = 'C08'
 COQ_MODEL = 'model.TsProps'
 COQ_CORR = 'corr_C08'
-N_QUICK = 1200
+N_QUICK = 1000
 N_THOROUGH = 5000
 THOROUGH_EXHAUSTIVE = True
 VM_CASES = 30
@@ -157,6 +157,11 @@ def corpus():
         _arr([_call('tA', [['ret', 'file']]), _call('tC', [['form_see'], ['see']], method='POST', form='f=tCf', hook_input=True),
               _call('tE', [['req_set', 'QUERY_STRING', 'q=tEq'], ['req_set', 'QUERY_STRING', 'x=1'], ['see']], readonly=True)],
              0, [[400, 1], [400, 2]]),
+        # the same signed cookie with a mutable payload in two requests: each handler changes ITS decoded value in place
+        _arr([_call('tA', [['sess_mutate'], ['see']], signed=True, cookie='c=tAc'),
+              _call('tC', [['see'], ['sess_mutate'], ['see']], signed=True)], 0, [[900, 1]]),
+        _arr([_call('tA', [['copy_off'], ['req_set', 'QUERY_STRING', 'o=tAo'], ['see']]),
+              _call('tC', [['req_set', 'QUERY_STRING', 'o=tCo'], ['see']])], 0, [[500, 1]]),
         # answers without a body whose iterable has to be closed
         _arr([_call('tA', [['see'], ['gen', 2]], method='HEAD'), _call('tC', [['status', 204], ['ret', 'file']]),
               _call('tE', [['status', 304], ['gen', 1]])], 0, [[500, 1], [500, 2]]),
@@ -299,11 +304,16 @@ def _gen_arr(rng):
             kw['accept'] = 'application/json'
         if rng.random() < 0.1:
             kw['file_wrapper'] = True
+        if rng.random() < 0.3 and 'route' not in kw:
+            kw['signed'] = True            # the same signed cookie (mutable payload) in every request that has one
         if rng.random() < 0.15 and 'route' not in kw:
             kw['readonly'] = True
         elif kw.get('form') and not kw.get('chunked_ok') and rng.random() < 0.3:
             kw['hook_input'] = True            # a before_request hook replaces wsgi.input / CONTENT_LENGTH of this request
-        calls.append(_call(tok, _gen_script(rng, tok, 'form' in kw), **kw))
+        script = _gen_script(rng, tok, 'form' in kw)
+        if kw.get('signed'):
+            script.insert(rng.randrange(len(script)), ['sess_mutate'])
+        calls.append(_call(tok, script, **kw))
     switches = [[rng.randrange(1, 1000), rng.randrange(n)] for _ in range(rng.randrange(1, 5))]
     return _arr(calls, rng.randrange(n), switches, cfg=cfg)
 
@@ -491,17 +501,49 @@ def shrink(case):
             yield dict(case, calls=calls[:i] + [dict(c, script=s[:j] + s[j + 1:])] + calls[i + 1:], abs=False)
 
 
-def _listener_in_handler(case, what, m):
-    """the failure is about what a listener registered with request.on() inside a handler heard, and the case has
-    such a handler next to another thread"""
-    if case.get('kind') != 'arr' or '(listen)' not in str(what) or len(case.get('calls', [])) < 2:
-        return False
+def _call_index(case):
+    """token -> (thread index, application index, nesting depth) for every call of an arrangement"""
+    out = {}
 
-    def walk(c):
+    def walk(c, ti, depth):
         if c.get('construct'):
+            return
+        out[c['tok']] = (ti, c['app'], depth)
+        for a in c['script']:
+            if a[0] == 'call':
+                walk(a[1], ti, depth + 1)
+            elif a[0] == 'call_copy':
+                out[c['tok'] + 'cc'] = (ti, a[1], depth + 1)
+            elif a[0] == 'listen_around':
+                for b in a[1]:
+                    if b[0] == 'call':
+                        walk(b[1], ti, depth + 1)
+    for ti, c in enumerate(case.get('calls', [])):
+        walk(c, ti, 0)
+    return out
+
+
+def _listener_in_handler(case, what, m):
+    """exactly the listed finding: a listener registered inside a handler heard environ changes made by requests that
+    OTHER THREADS serve on the SAME application object (the listeners of one request object are shared by its threads).
+    Anything a listener hears from another application, from a copy, or from a nested call is a different failure."""
+    import re
+    what = str(what)
+    if case.get('kind') != 'arr' or '(listen)' not in what or 'foreign tokens:' not in what:
+        return False
+    mm = re.search(r'call (\S+) \(listen\).*foreign tokens: ([^;]*);', what)
+    if not mm:
+        return False
+    idx = _call_index(case)
+    me = idx.get(mm.group(1))
+    foreign = mm.group(2).split()
+    if me is None or not foreign:
+        return False
+    for tok in foreign:
+        other = idx.get(tok)
+        if other is None or other[0] == me[0] or other[1] != me[1]:
             return False
-        return any(a[0] == 'listen' or (a[0] == 'call' and walk(a[1])) for a in c['script'])
-    return any(walk(c) for c in case['calls'])
+    return True
 
 
 PREDICATES = {'listener_registered_in_handler': _listener_in_handler}
